@@ -375,3 +375,115 @@ def mbx_recv_contract():
                  "result[0].value == the_mail()[1] % 16 and result[1] == the_mail()[2][:the_mail()[0]]"},
         modifies=None,
         options={"inline": {"ebpfcat.ethercat:Terminal.read"}})
+
+
+# ---------------------------------------------------------------- mbx_send
+# The other half of the transport: Terminal.mbx_send against the send mailbox
+# (sync manager 0, mailbox mode, ETG.1000.4): the terminal takes the mail when
+# the LAST byte of the mailbox is written; until then writes land in its
+# memory, afterwards (mailbox full) they are ignored.  Ghost: the accepted
+# writes so far - `out_mail` (offset, bytes) of the first one, `out_full`,
+# `out_clobbered` (a later accepted write overlaps the first one's bytes).
+class MbxOutBus(Contract_):
+    inline = False
+    qualname = "ebpfcat.ethercat:EtherCat.roundtrip"
+    loops = {}
+
+    def apply(self, ex, args, kwargs, frame, node):
+        ec, cmd, pos, offset = args[:4]
+        rest = list(args[4:])
+        t = ex.inputs["self"]
+        g = ex.ghost
+        if cmd is ECCmd.FPRD and rest == ["B"] and offset == 0x805:
+            st = fresh(ex, T.Range(0, 255), "sm0_status")
+            ex.assume(st.t / 8 % 2 == 0)         # send mailbox empty (nothing unread in it)
+            return (st,)
+        if cmd is not ECCmd.FPWR:
+            raise OutOfReach(f"bus access {cmd} {offset} outside the send-mailbox contract")
+        fmt = "<" + "".join(a for a in rest if isinstance(a, str))
+        vals = [a for a in rest if not isinstance(a, str)]
+        payload = lib.do_pack(ex, fmt, vals)
+        data = kwargs.get("data")
+        if isinstance(data, int):
+            data = bytes(data)
+        if data is not None:
+            payload = ops.bconcat(payload, data)
+        n = ops.b_len(lift_bytes(payload))
+        off = lift_int(offset)
+        last = lift_int(t.fields["mbx_out_off"]) + lift_int(t.fields["mbx_out_sz"]) - 1
+        full = g.get("out_full", z3.BoolVal(False))
+        if "out_mail" not in g:
+            g["out_mail"] = (Sym(off, INT) if not isinstance(offset, int) else offset, payload)
+        else:
+            o1, p1 = g["out_mail"]
+            n1 = ops.b_len(lift_bytes(p1))
+            g["out_clobbered"] = z3.Or(g.get("out_clobbered", z3.BoolVal(False)),
+                                       z3.And(z3.Not(full), off < lift_int(o1) + n1, lift_int(o1) < off + n))
+        g["out_full"] = z3.Or(full, z3.And(off <= last, last < off + n))
+        return ()
+
+
+def out_mail():
+    return None
+
+
+def out_full():
+    return None
+
+
+def out_clobbered():
+    return None
+
+
+@lib.model(out_mail)
+def _m_out_mail(ex, args, kw):
+    return ex.ghost["out_mail"]
+
+
+@lib.model(out_full)
+def _m_out_full(ex, args, kw):
+    return mk_bool(ex.ghost.get("out_full", z3.BoolVal(False)))
+
+
+@lib.model(out_clobbered)
+def _m_out_clobbered(ex, args, kw):
+    return mk_bool(ex.ghost.get("out_clobbered", z3.BoolVal(False)))
+
+
+def mbx_send_contract():
+    """one CoE request shape (the SDO code's "HBHB" header plus data of any
+    length the mailbox can hold, including the two lengths at its very end)"""
+    def setup(ex, inputs):
+        inputs.vars["args"] = ("HBHB", inputs.vars["a0"], inputs.vars["a1"], inputs.vars["a2"], inputs.vars["a3"])
+    return Contract(
+        Terminal.mbx_send,
+        params=dict(self=T.Obj(Terminal, ec=T.Obj(EtherCat), position=T.Range(0, 65535), name=T.Const("t"),
+                               mbx_in_off=T.Range(0x1000, 0xffff), mbx_in_sz=T.Range(16, 1486),
+                               mbx_out_off=T.Range(0x1000, 0xffff), mbx_out_sz=T.Range(16, 1486),
+                               mbx_lock=T.Obj(MailboxLock, counter=T.Range(0, 7), g_held=T.Const(True))),
+                    type=T.Const(MBXType.COE), a0=T.Range(0, 65535), a1=T.Range(0, 255), a2=T.Range(0, 65535),
+                    a3=T.Range(0, 255), data=T.Bytes, address=T.Const(0), priority=T.Const(0), channel=T.Const(0)),
+        setup=setup,
+        # both are obligations at every call of mbx_send in the SDO code (stub Send above)
+        requires={"the_mail_fits_the_send_mailbox": "6 + 6 + len(data) <= self.mbx_out_sz",
+                  "mailbox_lock_held": "self.mbx_lock.g_held"},
+        ensures={
+            "the_mail_is_written_at_the_start_of_the_mailbox": "out_mail()[0] == self.mbx_out_off",
+            "header_and_service_data_byte_for_byte":
+                "out_mail()[1][:2] == le16(6 + len(data)) and out_mail()[1][5] % 16 == 3 and "
+                "out_mail()[1][5] // 16 == old.self.mbx_lock.counter and "
+                "out_mail()[1][6:12] == pack('<HBHB', a0, a1, a2, a3) and out_mail()[1][12:] == data",
+            "nothing_overwrites_the_mail_before_the_terminal_takes_it": "not out_clobbered()",
+            "the_last_byte_of_the_mailbox_is_written": "out_full()",
+        },
+        modifies=None,
+        options={"inline": {"ebpfcat.ethercat:Terminal.read", "ebpfcat.ethercat:Terminal.write",
+                            "ebpfcat.ethercat:datasize"}},
+        canaries={"the_mail_always_ends_before_the_last_byte": "6 + 6 + len(data) < self.mbx_out_sz"})
+
+
+def le16(v):
+    return pack("<H", v)
+
+
+from struct import pack  # noqa: E402  (used by the clauses above)
